@@ -795,6 +795,12 @@ func (ctx *Context) evaluate() {
 				return
 			}
 
+		case typeStoreNameLocal:
+			// this.x = v: 写入当前作用域
+			v := e.stack[e.top-1].Clone()
+			name := code.Value.(string)
+			ctx.StoreNameLocal(name, v)
+
 		case typeJe, typeJeDup:
 			v := stackPop()
 			if v.AsBool() {
